@@ -31,7 +31,7 @@ class C13(Check):
         return fixlib.fix_case(tier=tier, kinds=SOFT_KINDS if tier == "quick" else None, structure=True)
 
     def examples(self, tier):
-        return 65 if tier == "quick" else 1300
+        return 42 if tier == "quick" else 1300
 
     def budget_s(self, tier):
         return 400.0 if tier == "quick" else 1700.0
